@@ -15,7 +15,9 @@
 // state unchanged (snapshots through element reads only, zero-valued cells carrying
 // derivatives only). iterhist.go: iterator clones after container mutations between advancing and
 // cloning (and the AVL tree iterator itself); funcops.go: operations with a function argument
-// (Jacobian, Hessian, MapSet, Reduce) over a lattice of operand derivative states.
+// (Jacobian, Hessian, MapSet, Reduce) over a lattice of operand derivative states. optslice.go: the
+// caller's option slice handed over as Run(x, opts...) is unchanged up to its capacity and a second
+// call with the same slice gives the same result.
 package main
 
 import (
@@ -42,6 +44,7 @@ type Case struct {
 	Dv    *DCase     `json:"derived,omitempty"`
 	IH    *IHCase    `json:"iterhist,omitempty"`
 	AV    *AVCase    `json:"avliter,omitempty"`
+	OS    *OCase     `json:"optslice,omitempty"`
 	Key   string     `json:"key"`
 }
 
@@ -638,6 +641,30 @@ func run(c *vf.Ctx) {
 		}
 	})
 
+	// ---- the caller's option slice: Run(x, opts...) with a slice the caller keeps
+	enumOCases(thorough, func(cs OCase) {
+		if !want("optslice") {
+			return
+		}
+		r.idx++
+		if !c.Mine(r.idx) {
+			return
+		}
+		c.Guard("optslice|"+cs.Algo, int64(cs.In), cs)
+		fails, out := runOCase(cs)
+		if out == "n/a" {
+			return
+		}
+		cc := cs
+		r.report(Case{Kind: "optslice", OS: &cc}, int64(cs.In*10000+cs.Opt*100+cs.Order*10+cs.Spare), fails, out)
+		if out == "ok" {
+			nontrivial++
+		}
+		if r.idx%499 == 0 {
+			c.Sample(map[string]any{"check": "optslice", "entry_point": cs.Algo, "type": cs.Typ, "input": cs.In, "option_set": cs.Opt, "arrangement": cs.Order, "spare_capacity": cs.Spare, "outcome": out})
+		}
+	})
+
 	// ---- callback interleaving: O2 on one side fired inside every interposable call of O1 on the other
 	if want("interleave") {
 		nontrivial += exploreInterleave(r, thorough)
@@ -695,7 +722,8 @@ func main() {
 			"iterator clones after a history (iterhist): containers = sparse vectors n<=4 (Float64/Real64: n<=5; thorough: n<=5, Float64/Real64/Int16 n<=6) and dense vectors n<=3 (thorough 4) with EVERY zero pattern, sparse ones filled in ascending, descending and (>=5 entries) middle-out order (right-heavy / left-heavy / balanced index trees), slices; matrices 2x2 (sparse also 1x3; sparse Float64/Real64 also 2x3 with 4 or 6 entries; thorough: all of 1x2..2x3, every pattern), owning, and T and Slice views (quick: <=4 cells, three zero patterns; thorough: every shape, every pattern up to 4 cells, three patterns of 2x3); all 9 element types; x iterator kind {Iterator, ConstIterator, IteratorFrom, JointIterator, ConstJointIterator (second operand dense and sparse), MagicIterator} x every position K the iterator can be advanced to x every single mutation {write a value to position p (absent: new entry), write zero to p, write zero to p and purge by a full const-iterator walk, Swap(p,q), SwapRows, SwapColumns; all p,q} of the container / the object owning its storage / the second operand (thorough: every ordered pair on owning containers with <=4 cells, Float64/Real64) x every clone method of the kind, the mutation placed between advancing and cloning (thorough: also between cloning and walking); reference = the never-cloned source iterator after the same history in an identically built instance; " +
 			"the AVL tree iterator itself: every distinct tree (shape, balance, keys) over <=5 keys of {0..5} (thorough <=6 of {0..6}) x Iterator / IteratorFrom(every key) / SafeIterator x every position x every single Insert(absent)/Delete(present) and every ordered pair of them (trees <=4 keys; thorough: all) x mutation before / after Clone(); " +
 			"operations with a FUNCTION argument in the read-only-operand part: Jacobian(f,x) and Hessian(f,x) with receivers of all 9 element types, both storage classes, owning and transposed, n=1..3, x f in {builds a new result, returns (an element of) its argument, returns an object the caller holds (also snapshotted)} x operands x of {Real64, Real32} x {dense, sparse} whose derivative state is: order 0 (full / alternating pattern), order 1 and order 2 content with non-trivial entries over 1, 2 and 3 variables, Variables(1) / Variables(2) already called by the caller, zero cells carrying derivatives only, slices of a longer vector with derivative-carrying neighbours; MapSet whose callback returns a scalar the caller holds; Reduce over every operand configuration; optimizers with an objective callback (rprop, bfgs, newton x 3, gradientDescent, adam) with Real64 start vectors of order 0, order 1 over 3 variables, order 2 over 1 variable and order 2 over dim variables; snapshots compare value, order, N, every derivative and every Hessian entry; " +
-			"a case is non-trivial if the mutation changed its target (indep), the call returned (readonly/selfread/algo/twocall), at least one derived observation was comparable and all agreed (derived), the iterator had elements left (iter), the mutation changed the container and the source iterator still had elements left afterwards (iterhist), or O2 was fired inside O1 and changed the other side (interleave)",
+			"the caller's option slice (optslice): every entry point under algorithm/ taking `args ...interface{}` (27: matrixInverse, determinant, cholesky, qrAlgorithm, svd, eigensystem, hessenbergReduction, householder{Bi,Tri}diagonalization, backSubstitution, gramSchmidt, gaussJordan, msqrt, msqrtInv, blahut.Run/RunNaive, rprop.Run/RunGradient, bfgs, newton.RunRoot/RunCrit/RunMin, gradientDescent, adam.Run/RunGradient, saga, lineSearch) called as Run(x, opts...) with a slice the caller keeps x every option set of the algorithm-input and two-call parts extended by the *InSitu object and by the options forwarded to the nested algorithm (gaussJordan.Submatrix through matrixInverse, qrAlgorithm.Epsilon through eigensystem) x every rotation of the option list and of its reversal (all permutations up to 3 options) x spare capacity 0 / 4 (thorough: 0 / 1 / 4; filled with sentinels) x {Float64, Real64} x every input; the slice is compared up to its capacity (dynamic type, scalar content, identity of pointers / functions / backing arrays, scalar fields behind non-InSitu pointers) after each of two calls, and the second call with the same slice on an identically built input must end like the first and return the same results; " +
+			"a case is non-trivial if the mutation changed its target (indep), the call returned (readonly/selfread/algo/twocall), the slice held at least one option and both calls returned (optslice), at least one derived observation was comparable and all agreed (derived), the iterator had elements left (iter), the mutation changed the container and the source iterator still had elements left afterwards (iterhist), or O2 was fired inside O1 and changed the other side (interleave)",
 		Assume: []string{
 			"observable state = public read API (dims, every element value/order/N/derivatives/Hessian, const-iterator sequence); explicit zero entries of sparse containers are not observable; an element with value 0 and no non-zero derivative is the same observable value whatever order/N it is allocated with (sparse containers may drop it)",
 			"AsVector/AsConstVector promise all elements in unspecified order: compared as multisets; derived observations a source itself cannot deliver (panic) and operations a const container type does not implement are not compared",
@@ -708,6 +736,7 @@ func main() {
 			"interleaving: one logical thread of control; the interleaving points are the calls the receiver's operation makes into its operands and callbacks (an operation that type-switches to a concrete fast path makes none and is counted as not-interposable); state shared by a view and its parent (T()/Slice share the scratch vectors by construction) is not in scope",
 			"iterator clones after a history: what an iterator yields after its container was mutated under it is NOT specified here (C11/C19); only 'the clone does what its source does' is demanded. Histories after which the source itself panics or does not terminate (joint iterators whose current entry was deleted or swapped away under them) are an outcome class (source-fails-after-history), the clone is then required to fail the same way",
 			"a callback's result is an operand of the call that invoked the callback: an object the caller holds and returns from f (Jacobian, Hessian, MapSet) must be unchanged; the accumulator of Reduce is the call's result, not a read-only operand; optimizers that panic or fail on a start vector carrying foreign derivatives (bfgs) are an outcome class, their input must be unchanged all the same",
+			"option slice: Go hands `opts...` to the callee without copying; the slice (backing array up to its capacity) is an object of the caller that no in-situ option covers, so any write to it is a violation. An *InSitu object inside the slice is work space (only its identity is compared), the results of the first call are snapshotted before the second",
 			"InSitu: no doc comment defines result ownership; the result objects are the exported buffer fields, so first-call results that change during the second call are an outcome class (results-alias-buffers), not a violation; with InitializeH=false the caller (harness) fills H itself before each call; a call that fails loudly (error/panic) only with or only without the InSitu object is an outcome class",
 		},
 		Run: run,
@@ -739,6 +768,8 @@ func main() {
 				fails, _ = runIHCase(*cs.IH)
 			case "avliter":
 				fails, _ = runAVCase(*cs.AV)
+			case "optslice":
+				fails, _ = runOCase(*cs.OS)
 			}
 			for _, f := range fails {
 				if f.key == cs.Key {
